@@ -31,11 +31,13 @@ CONSTANTS
   IdSeed, IdMax,  \* request id counter: first id is Bump(IdSeed); IdMax wraps to 1 (0 is never used)
   UnsolIds,       \* request ids used by the server for unsolicited responses
   MaxExtra,       \* number of duplicated / unsolicited responses
-  Kinds,          \* kinds of answers to ordinary requests: subset of {"ok","wrong","fault"}
+  Kinds,          \* kinds of answers to ordinary requests: subset of {"ok","wrong","fault","echo"}
+                  \* ("echo": a well-formed message that is not a response -- the request sent back under its id)
   WithRenew,      \* one token renewal (OPN request) takes part
   Timed,          \* TRUE: discrete clock, timers fire at their deadline (InvBoundedWait)
   T, MaxTime,     \* timeout + leniency in ticks, clock bound
   EarlyCancel,    \* the context of a call may end before the request is written
+  MultiChunk,     \* a response may arrive in two parts: intermediate chunk(s) first, the final chunk later
   NoTimeouts,     \* TRUE: no timer / context events (configurations in which request ids are reused while
                   \* the first user may still be pending: a call then ends only through its response, so an
                   \* id is free again only after its response was consumed)
@@ -48,12 +50,13 @@ CONSTANTS
   Dev_LeakOnEarlyCancel,   \* handler registered although the context already ended, not removed
   Dev_KeyMask,             \* (demo) handler table keyed by id % 2
   Dev_NoTypeCheck,         \* (demo) wrong response type accepted
-  Dev_NoPopOnTimeout       \* (demo) the timeout arm leaves the handler registered
+  Dev_NoPopOnTimeout,      \* (demo) the timeout arm leaves the handler registered
+  Dev_DropChunksOnTimeout  \* (demo) the error arms also discard the buffered chunks of their request id
 
 Op      == 0                                   \* the opener (renewal)
 Nobody  == 99
 Procs   == Callers \cup (IF WithRenew THEN {Op} ELSE {})
-NoMsg   == [mid |-> 0, id |-> 0, c |-> Nobody, k |-> 0, kind |-> "none"]
+NoMsg   == [mid |-> 0, id |-> 0, c |-> Nobody, k |-> 0, kind |-> "none", multi |-> FALSE]
 Bump(i) == IF i >= IdMax THEN 1 ELSE i + 1
 Key(i)  == IF Dev_KeyMask THEN i % 2 ELSE i
 CallsOf(p) == IF p = Op THEN 1 ELSE MaxCalls
@@ -70,13 +73,15 @@ VARIABLES
   dRead, dpc, dmsg, dch,
   rcvGate, reqGate,
   extra, now,
+  chunks,     \* request ids with buffered intermediate chunks of a response (SecureChannel.chunks)
+  chanErr,    \* an error was reported on the channel's error channel because a message could not be decoded
   results,    \* finished calls: [c, k, id, out, mid, kind, own, t0, t1]
   hist        \* generation modes: the recorded steps
 
 vars == <<nextId, handlers, pc, cid, ncalls, box, t0, dl, ctxd, sent, c2s, srvRead, answered, s2c,
-          dRead, dpc, dmsg, dch, rcvGate, reqGate, extra, now, results, hist>>
+          dRead, dpc, dmsg, dch, rcvGate, reqGate, extra, now, chunks, chanErr, results, hist>>
 view == <<nextId, handlers, pc, cid, ncalls, box, t0, dl, ctxd, sent, c2s, srvRead, answered, s2c,
-          dRead, dpc, dmsg, dch, rcvGate, reqGate, extra, now, results>>
+          dRead, dpc, dmsg, dch, rcvGate, reqGate, extra, now, chunks, chanErr, results>>
 
 Init ==
   /\ nextId = IdSeed /\ handlers = {}
@@ -85,7 +90,7 @@ Init ==
   /\ t0 = [p \in Procs |-> 0] /\ dl = [p \in Procs |-> 0] /\ ctxd = [p \in Procs |-> FALSE]
   /\ sent = {} /\ c2s = <<>> /\ srvRead = 0 /\ answered = {} /\ s2c = <<>> /\ dRead = 0
   /\ dpc = "recv" /\ dmsg = NoMsg /\ dch = [c |-> Nobody, k |-> 0]
-  /\ rcvGate = FALSE /\ reqGate = FALSE /\ extra = 0 /\ now = 0
+  /\ rcvGate = FALSE /\ reqGate = FALSE /\ extra = 0 /\ now = 0 /\ chunks = {} /\ chanErr = FALSE
   /\ results = {} /\ hist = <<>>
 
 ---------------------------------------------------------------------------
@@ -107,7 +112,9 @@ EnvOK   == CASE Mode = "mc" -> TRUE [] Mode = "script" -> Quiescent [] OTHER -> 
 SchedOK == CASE Mode = "race" -> EagerIdle [] OTHER -> TRUE
 \* every recorded step carries a snapshot of what must have happened before it (taken in an
 \* eager-idle state): requests on the wire, finished calls, responses consumed by the dispatcher
-Snap        == [nsent |-> Cardinality(sent), nres |-> Cardinality(results), nread |-> dRead]
+PartsIn(n)  == Cardinality({i \in 1..n : s2c[i].kind = "part"})
+Snap        == [nsent |-> Cardinality(sent), nres |-> Cardinality(results),
+                nread |-> dRead - PartsIn(dRead), nparts |-> PartsIn(dRead)]
 Rec(r)      == hist' = IF Mode = "mc" THEN hist ELSE Append(hist, r @@ Snap)
 RecRace(r)  == hist' = IF Mode = "race" THEN Append(hist, r @@ Snap) ELSE hist
 
@@ -129,6 +136,7 @@ Finish(p, out, m) ==
 \* callers and opener
 
 Invoke(p) ==                       \* SendRequestWithTimeout is called / renew() starts
+  /\ UNCHANGED <<chunks, chanErr>>
   /\ pc[p] = "idle" /\ ncalls[p] < CallsOf(p) /\ EnvOK /\ FirstOK(p)
   /\ t0' = [t0 EXCEPT ![p] = now]
   /\ IF p = Op THEN /\ ~reqGate /\ reqGate' = TRUE         \* renew: reqLocker.lock()
@@ -139,12 +147,14 @@ Invoke(p) ==                       \* SendRequestWithTimeout is called / renew()
                  dpc, dmsg, dch, rcvGate, extra, now, results>>
 
 PassGate(p) ==                     \* reqLocker.waitIfLock()
+  /\ UNCHANGED <<chunks, chanErr>>
   /\ pc[p] = "gate" /\ ~reqGate
   /\ pc' = [pc EXCEPT ![p] = "id"]
   /\ UNCHANGED <<nextId, handlers, cid, ncalls, box, t0, dl, ctxd, sent, c2s, srvRead, answered, s2c, dRead,
                  dpc, dmsg, dch, rcvGate, reqGate, extra, now, results, hist>>
 
 GateDeadline(p) ==                 \* contract: the wait at the gate is bounded by the call's own deadline
+  /\ UNCHANGED <<chunks, chanErr>>
   /\ ~Dev_GateIgnoresDeadline /\ Timed
   /\ pc[p] = "gate" /\ reqGate /\ now >= t0[p] + T
   /\ Finish(p, "timeout", NoMsg)
@@ -152,6 +162,7 @@ GateDeadline(p) ==                 \* contract: the wait at the gate is bounded 
                  dpc, dmsg, dch, extra, now, hist>>
 
 AllocId(p) ==                      \* nextRequestID()
+  /\ UNCHANGED <<chunks, chanErr>>
   /\ pc[p] = "id"
   /\ nextId' = Bump(nextId) /\ cid' = [cid EXCEPT ![p] = Bump(nextId)]
   /\ pc' = [pc EXCEPT ![p] = "reg"]
@@ -159,6 +170,7 @@ AllocId(p) ==                      \* nextRequestID()
                  dpc, dmsg, dch, rcvGate, reqGate, extra, now, results, hist>>
 
 Register(p) ==                     \* sendAsyncWithTimeout under the instance lock
+  /\ UNCHANGED <<chunks, chanErr>>
   /\ pc[p] = "reg"
   /\ LET slot == [key |-> Key(cid[p]), c |-> p, k |-> ncalls[p] + 1] IN
      IF \E h \in handlers : h.key = Key(cid[p])
@@ -182,14 +194,17 @@ Outcome(m) == CASE m.kind = "ok"    -> "ok"
                 [] m.kind = "opn"   -> "ok"
                 [] m.kind = "fault" -> "fault"
                 [] m.kind = "wrong" -> IF Dev_NoTypeCheck THEN "ok" ELSE "type"
+                [] m.kind = "echo"  -> IF Dev_NoTypeCheck THEN "ok" ELSE "type"
 
 TakeMsg(p) ==                      \* case msg := <-ch
+  /\ UNCHANGED <<chunks, chanErr>>
   /\ pc[p] = "wait" /\ box[p] # NoMsg
   /\ Finish(p, Outcome(box[p]), box[p])
   /\ UNCHANGED <<nextId, handlers, cid, t0, dl, sent, c2s, srvRead, answered, s2c, dRead,
                  dpc, dmsg, dch, extra, now, hist>>
 
 TimerArm(p) ==                     \* case <-timer.C (hook wait.timeout)
+  /\ UNCHANGED <<chunks, chanErr>>
   /\ ~NoTimeouts
   /\ pc[p] = "wait"
   /\ IF Timed THEN now >= dl[p] ELSE EnvOK
@@ -200,6 +215,7 @@ TimerArm(p) ==                     \* case <-timer.C (hook wait.timeout)
                  dpc, dmsg, dch, rcvGate, reqGate, extra, now, results>>
 
 Cancel(p) ==                       \* the caller's context ends
+  /\ UNCHANGED <<chunks, chanErr>>
   /\ p \in Callers /\ ~ctxd[p] /\ EnvOK /\ ~NoTimeouts
   /\ \/ /\ pc[p] = "wait" /\ (Mode # "mc" => box[p] = NoMsg)        \* case <-ctx.Done() (hook wait.ctx)
         /\ pc' = [pc EXCEPT ![p] = "ctxp"] /\ UNCHANGED ctxd
@@ -211,6 +227,7 @@ Cancel(p) ==                       \* the caller's context ends
                  dpc, dmsg, dch, rcvGate, reqGate, extra, now, results>>
 
 InvokeCancelled(p) ==              \* a call made with a context that has already ended
+  /\ UNCHANGED <<chunks, chanErr>>
   /\ EarlyCancel /\ p \in Callers
   /\ pc[p] = "idle" /\ ncalls[p] < CallsOf(p) /\ EnvOK /\ FirstOK(p)
   /\ t0' = [t0 EXCEPT ![p] = now]
@@ -224,19 +241,34 @@ ErrPop(p) ==                       \* popHandler(reqID) on the timer / ctx arm, 
   /\ handlers' = IF Dev_NoPopOnTimeout THEN handlers
                  ELSE {h \in handlers : h.key # Key(cid[p])}
   /\ Finish(p, IF pc[p] = "tmo" THEN "timeout" ELSE "ctx", NoMsg)
+  /\ chunks' = IF Dev_DropChunksOnTimeout THEN chunks \ {cid[p]} ELSE chunks
+  /\ UNCHANGED chanErr
   /\ RecRace([a |-> "errpop", c |-> p])
   /\ UNCHANGED <<nextId, cid, t0, dl, sent, c2s, srvRead, answered, s2c, dRead, dpc, dmsg, dch, extra, now>>
 
 ---------------------------------------------------------------------------
 \* dispatcher
 
+DRecvPart ==                       \* Receive() read an intermediate chunk: buffered under its request id
+  /\ dpc = "recv" /\ dRead < Len(s2c) /\ s2c[dRead + 1].kind = "part"
+  /\ chunks' = chunks \cup {s2c[dRead + 1].id} /\ dRead' = dRead + 1
+  /\ UNCHANGED <<nextId, handlers, pc, cid, ncalls, box, t0, dl, ctxd, sent, c2s, srvRead, answered, s2c,
+                 dpc, dmsg, dch, rcvGate, reqGate, extra, now, chanErr, results, hist>>
+
 DRecv ==                           \* Receive() returned the next message
-  /\ dpc = "recv" /\ dRead < Len(s2c)
-  /\ dmsg' = s2c[dRead + 1] /\ dRead' = dRead + 1 /\ dpc' = "pop"
+  /\ dpc = "recv" /\ dRead < Len(s2c) /\ s2c[dRead + 1].kind # "part"
+  /\ LET m == s2c[dRead + 1] IN
+       IF m.multi /\ m.id \notin chunks
+       THEN \* the final chunk of a message whose first part is gone: decoding fails, the error goes
+            \* to the error channel (the client treats that as a broken connection)
+            /\ chanErr' = TRUE /\ UNCHANGED <<dmsg, dpc, chunks>>
+       ELSE /\ dmsg' = m /\ dpc' = "pop" /\ chunks' = chunks \ {m.id} /\ UNCHANGED chanErr
+  /\ dRead' = dRead + 1
   /\ UNCHANGED <<nextId, handlers, pc, cid, ncalls, box, t0, dl, ctxd, sent, c2s, srvRead, answered, s2c,
                  dch, rcvGate, reqGate, extra, now, results, hist>>
 
 DPop ==                            \* popHandler(msg.RequestID)   (hook disp.pop follows)
+  /\ UNCHANGED <<chunks, chanErr>>
   /\ dpc = "pop"
   /\ IF \E h \in handlers : h.key = Key(dmsg.id)
      THEN LET h == CHOOSE h \in handlers : h.key = Key(dmsg.id) IN
@@ -250,6 +282,7 @@ DPop ==                            \* popHandler(msg.RequestID)   (hook disp.pop
                  dmsg, reqGate, extra, now, results, hist>>
 
 DLock ==                           \* HACK: rcvLocker.lock() for an OpenSecureChannelResponse
+  /\ UNCHANGED <<chunks, chanErr>>
   /\ dpc = "lock" /\ SchedOK
   /\ rcvGate' = TRUE /\ dpc' = "handoff"
   /\ RecRace([a |-> "dlock"])
@@ -257,6 +290,7 @@ DLock ==                           \* HACK: rcvLocker.lock() for an OpenSecureCh
                  dmsg, dch, reqGate, extra, now, results>>
 
 DHandoff ==                        \* select { case ch <- msg: default: }
+  /\ UNCHANGED <<chunks, chanErr>>
   /\ dpc = "handoff" /\ SchedOK
   /\ IF /\ dch.c \in Procs /\ ncalls[dch.c] + 1 = dch.k
         /\ pc[dch.c] \in {"wait", "tmo", "ctxp"} /\ box[dch.c] = NoMsg
@@ -268,6 +302,7 @@ DHandoff ==                        \* select { case ch <- msg: default: }
                  dmsg, dch, rcvGate, reqGate, extra, now, results>>
 
 DGateEnter ==                      \* hook disp.gate, then rcvLocker.waitIfLock()
+  /\ UNCHANGED <<chunks, chanErr>>
   /\ dpc = "gate" /\ SchedOK
   /\ dpc' = "gatew"
   /\ RecRace([a |-> "dgate"])
@@ -275,6 +310,7 @@ DGateEnter ==                      \* hook disp.gate, then rcvLocker.waitIfLock(
                  dmsg, dch, rcvGate, reqGate, extra, now, results>>
 
 DGatePass ==
+  /\ UNCHANGED <<chunks, chanErr>>
   /\ dpc = "gatew" /\ ~rcvGate
   /\ dpc' = "recv"
   /\ UNCHANGED <<nextId, handlers, pc, cid, ncalls, box, t0, dl, ctxd, sent, c2s, srvRead, answered, s2c, dRead,
@@ -283,17 +319,20 @@ DGatePass ==
 ---------------------------------------------------------------------------
 \* server (environment)
 
-mkMsg(r, kind) == [mid |-> Len(s2c) + 1, id |-> r.id, c |-> r.c, k |-> r.k, kind |-> kind]
+Parted(r)      == \E i \in 1..Len(s2c) : s2c[i].kind = "part" /\ s2c[i].id = r.id /\ s2c[i].c = r.c /\ s2c[i].k = r.k
+mkMsg(r, kind) == [mid |-> Len(s2c) + 1, id |-> r.id, c |-> r.c, k |-> r.k, kind |-> kind, multi |-> Parted(r)]
 
 Inbox == {c2s[i] : i \in 1..srvRead}
 
 SrvRead ==                         \* the server reads the next ordinary request
+  /\ UNCHANGED <<chunks, chanErr>>
   /\ srvRead < Len(c2s) /\ c2s[srvRead + 1].c # Op
   /\ srvRead' = srvRead + 1
   /\ UNCHANGED <<nextId, handlers, pc, cid, ncalls, box, t0, dl, ctxd, sent, c2s, answered, s2c, dRead,
                  dpc, dmsg, dch, rcvGate, reqGate, extra, now, results, hist>>
 
 Respond(r, kind) ==                \* answer a request that was read, in any order
+  /\ UNCHANGED <<chunks, chanErr>>
   /\ r \in Inbox \ answered /\ r.c # Op /\ EnvOK
   /\ kind \in Kinds
   /\ s2c' = Append(s2c, mkMsg(r, kind))
@@ -302,7 +341,15 @@ Respond(r, kind) ==                \* answer a request that was read, in any ord
   /\ UNCHANGED <<nextId, handlers, pc, cid, ncalls, box, t0, dl, ctxd, sent, c2s, srvRead, dRead,
                  dpc, dmsg, dch, rcvGate, reqGate, extra, now, results>>
 
+RespondPart(r) ==                  \* the intermediate chunk(s) of the answer go out, the final chunk follows later
+  /\ MultiChunk /\ r \in Inbox \ answered /\ r.c # Op /\ ~Parted(r) /\ EnvOK
+  /\ s2c' = Append(s2c, [mid |-> Len(s2c) + 1, id |-> r.id, c |-> r.c, k |-> r.k, kind |-> "part", multi |-> TRUE])
+  /\ Rec([a |-> "resppart", c |-> r.c, k |-> r.k, mid |-> Len(s2c) + 1])
+  /\ UNCHANGED <<nextId, handlers, pc, cid, ncalls, box, t0, dl, ctxd, sent, c2s, srvRead, answered, dRead,
+                 dpc, dmsg, dch, rcvGate, reqGate, extra, now, chunks, chanErr, results>>
+
 RespondOpn ==                      \* the server reads the renewal request: it is answered at once
+  /\ UNCHANGED <<chunks, chanErr>>
   /\ srvRead < Len(c2s) /\ c2s[srvRead + 1].c = Op /\ EnvOK
   /\ LET r == c2s[srvRead + 1] IN
        /\ s2c' = Append(s2c, mkMsg(r, "opn"))
@@ -313,22 +360,25 @@ RespondOpn ==                      \* the server reads the renewal request: it i
                  dpc, dmsg, dch, rcvGate, reqGate, extra, now, results>>
 
 Dup(r) ==                          \* a second response to a request that was already answered
+  /\ UNCHANGED <<chunks, chanErr>>
   /\ r \in answered /\ extra < MaxExtra /\ EnvOK
-  /\ s2c' = Append(s2c, mkMsg(r, IF r.c = Op THEN "opn" ELSE "ok"))
+  /\ s2c' = Append(s2c, [mkMsg(r, IF r.c = Op THEN "opn" ELSE "ok") EXCEPT !.multi = FALSE])
   /\ extra' = extra + 1
   /\ Rec([a |-> "dup", c |-> r.c, k |-> r.k, mid |-> Len(s2c) + 1])
   /\ UNCHANGED <<nextId, handlers, pc, cid, ncalls, box, t0, dl, ctxd, sent, c2s, srvRead, answered, dRead,
                  dpc, dmsg, dch, rcvGate, reqGate, now, results>>
 
 Unsol(i) ==                        \* a response with a request id nobody uses
+  /\ UNCHANGED <<chunks, chanErr>>
   /\ i \in UnsolIds /\ extra < MaxExtra /\ EnvOK
-  /\ s2c' = Append(s2c, [mid |-> Len(s2c) + 1, id |-> i, c |-> Nobody, k |-> 0, kind |-> "ok"])
+  /\ s2c' = Append(s2c, [mid |-> Len(s2c) + 1, id |-> i, c |-> Nobody, k |-> 0, kind |-> "ok", multi |-> FALSE])
   /\ extra' = extra + 1
   /\ Rec([a |-> "unsol", id |-> i, mid |-> Len(s2c) + 1])
   /\ UNCHANGED <<nextId, handlers, pc, cid, ncalls, box, t0, dl, ctxd, sent, c2s, srvRead, answered, dRead,
                  dpc, dmsg, dch, rcvGate, reqGate, now, results>>
 
 Tick ==
+  /\ UNCHANGED <<chunks, chanErr>>
   /\ Timed /\ now < MaxTime /\ EnvOK
   \* time passes only while every caller waits (local computation takes no time) ...
   /\ \A p \in Procs : pc[p] \in {"idle", "wait"} \/ (pc[p] = "gate" /\ reqGate)
@@ -344,13 +394,13 @@ Tick ==
 Next ==
   \/ \E p \in Procs : \/ Invoke(p) \/ PassGate(p) \/ GateDeadline(p) \/ AllocId(p) \/ Register(p)
                       \/ TakeMsg(p) \/ TimerArm(p) \/ Cancel(p) \/ InvokeCancelled(p) \/ ErrPop(p)
-  \/ DRecv \/ DPop \/ DLock \/ DHandoff \/ DGateEnter \/ DGatePass
+  \/ DRecv \/ DRecvPart \/ DPop \/ DLock \/ DHandoff \/ DGateEnter \/ DGatePass
   \/ SrvRead \/ RespondOpn
-  \/ \E r \in sent : (\E kind \in Kinds : Respond(r, kind)) \/ Dup(r)
+  \/ \E r \in sent : (\E kind \in Kinds : Respond(r, kind)) \/ Dup(r) \/ RespondPart(r)
   \/ \E i \in UnsolIds : Unsol(i)
   \/ Tick
 
-Fair == /\ WF_vars(SrvRead) /\ WF_vars(DRecv) /\ WF_vars(DPop) /\ WF_vars(DLock) /\ WF_vars(DHandoff)
+Fair == /\ WF_vars(SrvRead) /\ WF_vars(DRecv) /\ WF_vars(DRecvPart) /\ WF_vars(DPop) /\ WF_vars(DLock) /\ WF_vars(DHandoff)
         /\ WF_vars(DGateEnter) /\ WF_vars(DGatePass)
         /\ \A p \in Procs : WF_vars(PassGate(p) \/ AllocId(p) \/ Register(p) \/ TakeMsg(p)
                                     \/ TimerArm(p) \/ ErrPop(p) \/ GateDeadline(p))
@@ -361,7 +411,7 @@ Spec == Init /\ [][Next]_vars /\ Fair
 \* C18
 InvOwnResponse == \A r \in results : r.out = "ok" => r.own
 InvNoShare     == \A r1, r2 \in results : (r1.mid # 0 /\ r1.mid = r2.mid) => r1 = r2
-InvTypeError   == \A r \in results : r.kind = "wrong" => r.out # "ok"
+InvTypeError   == \A r \in results : r.kind \in {"wrong", "echo"} => r.out # "ok"
 InvFaultError  == \A r \in results : r.kind = "fault" => r.out # "ok"
 \* a message in a caller's box is addressed to the call that waits there
 InvBoxOwn      == \A p \in Procs : box[p] # NoMsg => (box[p].c = p /\ box[p].k = ncalls[p] + 1)
@@ -373,6 +423,8 @@ InvBoundedWait == Timed => /\ \A r \in results : r.t1 <= r.t0 + T
                            /\ \A p \in Procs : pc[p] # "idle" => now <= t0[p] + T
 \* the receive gate is only ever held on behalf of an opener that is still in flight
 InvGateOwned   == rcvGate => (WithRenew /\ pc[Op] # "idle")
+\* a response that is late for its caller must not turn into an error of the channel
+InvNoChanErr   == ~chanErr
 \* every response the server sent is eventually consumed by the dispatcher
 NotWedged      == <>[](dRead = Len(s2c) /\ dpc \in {"recv", "gatew"} /\ ~rcvGate)
 
@@ -388,6 +440,7 @@ Beh == [steps |-> hist,
         pending |-> Cardinality(handlers),
         wedged |-> rcvGate,
         unread |-> Len(s2c) - dRead,
+        buffered |-> Cardinality(chunks), chanerr |-> chanErr,
         final |-> Snap]
 InvEmit == (Mode # "mc" /\ Terminal) => PrintT("BEH " \o ToJson(Beh))
 =============================================================================
